@@ -136,6 +136,16 @@ def run(chk):
             sel[i] = [int(x) for x in rng.choice(n * L, k, replace=False)]
             return list(sel[i])
         try:
+            if not use_df and rng.random() < 0.3:
+                # call history on one array object: another record of the same shape is analysed first, then the buffer is
+                # refilled in place with `series` and analysed (with the same max_lag) -- the edges must be about the CURRENT contents
+                buf = rng.integers(-40, 41, (T, n)).astype(float) / 16
+                with Spy(disc, select=lambda i, name, a, kw: [], estimator=lambda k, r: 1.0, test=lambda k, r: {
+                        "Threshold": 0.0, "Value": r["observed"], "Pass": True, "P_value": 0.0}), lib.quiet():
+                    disc.discover_network(buf, method=method, information="gaussian", max_lag=L, n_shuffles=13)
+                buf[:] = series
+                data = buf
+                chk.count("structural.second_analysis_of_a_buffer_refilled_in_place")
             with Spy(disc, select=select, estimator=lambda k, r: 1.0 + k / 1024, test=lambda k, r: {
                     "Threshold": 0.0, "Value": r["observed"], "Pass": True, "P_value": (k % 13) / 13}) as spy, lib.quiet():
                 G = disc.discover_network(data, method=method, information="gaussian", max_lag=L, n_shuffles=13)
